@@ -96,7 +96,7 @@ def step (_ : Unit) (line : String) : Unit × String :=
   | some [SExp.atom "NNF", c] =>
     match pCircuit c with
     | some c =>
-      let cnt := DDNNF.evalC DDNNF.natSR (fun _ => 1) c
+      let cnt := DDNNF.evalCArr DDNNF.natSR (fun _ => 1) c
       rVerdict (DDNNF.validate c) ++ " vars " ++ renderList ((DDNNF.rootVars c).map toString) ++ " count " ++ toString cnt
     | none => "bad-op"
   | some [SExp.atom "ENTAILS", c, cls] =>
@@ -104,7 +104,7 @@ def step (_ : Unit) (line : String) : Unit × String :=
     match pCircuit c, pClauses cls with
     | some c, some cls =>
       renderList (cls.map (fun cl =>
-        toString (DDNNF.evalC DDNNF.natSR (fun l => if cl.contains l then 0 else 1) c)))
+        toString (DDNNF.evalCArr DDNNF.natSR (fun l => if cl.contains l then 0 else 1) c)))
     | _, _ => "bad-op"
   | some [SExp.atom "LOAD", c, st] =>
     -- st : the CNF's weights / names / ads carried in a store record (nodes ignored)
